@@ -312,12 +312,24 @@ def column_page(geo, bbs):
 
 
 def c09_failures(cont, items, la, facts=None):
-    """-> [(key, message)]; evaluates the documented grouping predicates on the analysed container"""
+    """-> [(key, message)]; evaluates the documented grouping predicates on the analysed container with exact rational
+    arithmetic.  Where that fails but the same predicates evaluated in binary64 (as the library computes them) hold, the
+    case is rounding-sensitive (a gap that equals its threshold to the last place): counted in facts["rounding"], not a
+    failure - binary64 rounding is outside the property."""
+    bad = c09_failures_with(cont, items, la, True, facts)
+    if bad and not c09_failures_with(cont, items, la, False, None):
+        if facts is not None:
+            facts["rounding"] = facts.get("rounding", 0) + 1
+        return []
+    return bad
+
+
+def c09_failures_with(cont, items, la, exact, facts=None):
     bad = []
     chars = [o for o in items if isinstance(o, LTChar)]
     if not chars or not analysed(cont, la):
         return bad
-    geo = Geo(la, True)
+    geo = Geo(la, exact)
     gid = {builtins.id(c): i + 1 for i, c in enumerate(chars)}
     gb = [geo.b(c.bbox) for c in chars]
     boxes, empties, _ = tree_lines(cont)
